@@ -14,5 +14,5 @@ FUNCTIONS = ['uxarray.core.aggregation._apply_node_to_edge_aggregation_numpy@dim
 STANDINS = ["aggregations"]
 ASSUMPTIONS = []
 EXPLANATION = "partition / gather contracts + bounded stand-in over all ten reductions"
-LEVEL_TEXT = 'both aggregation kernels proved for an arbitrary reduction (an uninterpreted function of the value sequence along the last axis), rank 1 and 2: _apply_node_to_edge_aggregation_numpy reduces exactly the two nodes of each edge; _apply_node_to_face_aggregation_numpy (loop invariant over the size partitions, ghost inverse permutation, staged scatter lemmas) gives every face the reduction over exactly its npf corner nodes - padding is never gathered; the partition function itself (argsort / unique / cumsum) is an assumed contract checked by the bounded stand-in, as are the ten numpy reductions, dtypes and the dispatch / error paths'
+LEVEL_TEXT = 'both aggregation kernels proved for an arbitrary reduction (an uninterpreted function of the value sequence along the last axis), rank 1 and 2: _apply_node_to_edge_aggregation_numpy reduces exactly the two nodes of each edge; _apply_node_to_face_aggregation_numpy (loop invariant over the size partitions, ghost inverse permutation, staged scatter lemmas) gives every face the reduction over exactly its npf corner nodes - padding is never gathered; the public wrappers _node_to_face/_node_to_edge_aggregation proved to hand the result of the kernel on unchanged (no cast back to the source dtype), on the same grid, node dimension renamed; the partition function itself (argsort / unique / cumsum) is an assumed contract checked by the bounded stand-in, as are the ten numpy reductions, dtypes and the dispatch / error paths'
 LEVEL_NOTE = 'aggregation function = function of the last-axis value sequence and its length; get_face_node_partitions assumed (DESIGN B.6 contract incl. the permutation inverse as a ghost result); index-array scatter model with distinct indices (obligation)'
